@@ -335,7 +335,8 @@ theorem PPre_match {c : Cfg} {s3 : State} {b : Nat} (h : PPre c s3) (hg : s3.gne
         · intro x hx
           rcases List.mem_cons.1 hx with e | hm'
           · subst e
-            exact ⟨rres_ge c b, fun _ => hg.symm, by intro f hf; cases hf⟩
+            exact ⟨rres_ge c b, fun _ => hg.symm, (by intro f hf; cases hf), Nat.le_refl _,
+              (by intro f hf; cases hf)⟩
           · exact a7 x hm'
 
 
@@ -353,12 +354,26 @@ theorem Good_of_SI {c : Cfg} {t : State} (h : SI c t) (hf : t.failed = false) : 
 theorem Good_of_fail {c : Cfg} {t : State} (hf : t.failed = true) (h : FailOK c t) : Good c t := by
   unfold Good; simp only [hf, if_true]; exact h
 
+theorem parseMoreP_le {c : Cfg} {k : Option Nat} {r : PRes}
+    (h : parseMoreP c k (parseTarget r) = true) : ∀ b, r = .hdr b → offs c (k.getD 0 + 1) ≤ b := by
+  intro b hb
+  subst hb
+  unfold parseMoreP at h
+  cases k with
+  | none => cases h
+  | some kk =>
+    have h' : offs c (kk + 1) < b := of_decide_eq_true h
+    simp only [Option.getD_some]
+    omega
+
 theorem Good_parseMore {c : Cfg} {s1 : State} (k : Option Nat) (hP : PPre c s1)
-    (hpo1 : s1.porig = s1.gnext) : Good c (parseMore c s1 k) := by
-  obtain ⟨⟨b1, b2, b3, b4, b5, b6, b7, b8, b9, b10, b11, b12⟩, p2, p3, p4, p5, p7⟩ :=
-    PPre_advance (offs c (k.getD 0 + 1)) hP
+    (hpo1 : s1.porig = s1.gnext)
+    (hp : ∀ b, pres c s1.gnext = .hdr b → offs c (k.getD 0 + 1) ≤ b) :
+    Good c (parseMore c s1 k) := by
+  obtain ⟨⟨b1, b2, b3, b4, b5, b6, b7, b8, b9, b10, b11, b12, b13⟩, p2, p3, p4, p5, p7⟩ :=
+    PPre_advance (offs c (k.getD 0 + 1)) hP hp
   refine Good_of_SI (t := parseMore c s1 k) ?_ p7
-  refine ⟨b1, b2, fun _ => hpo1, fun _ => p3, b5, fun _ => p4, b7, b8, b9, b10, b11, ?_⟩
+  refine ⟨b1, b2, fun _ => hpo1, fun _ => p3, b5, fun _ => p4, b7, b8, b9, b10, b11, ?_, b13⟩
   intro hh
   rw [show (parseMore c s1 k).pphase = (advance c s1 (offs c (k.getD 0 + 1))).pphase from rfl, p3] at hh
   cases hh
@@ -379,7 +394,7 @@ theorem Good_parseVerdict {c : Cfg} {s1 : State} (hP : PPre c s1)
     | false =>
       exact Good_of_fail rfl (by have := future_fail (s := s1) hP.si hfut rfl; exact this)
     | true =>
-      obtain ⟨⟨b1, b2, b3, b4, b5, b6, b7, b8, b9, b10, b11, b12⟩, p2, p3, p4, p5, p7⟩ := hP
+      obtain ⟨⟨b1, b2, b3, b4, b5, b6, b7, b8, b9, b10, b11, b12, b13⟩, p2, p3, p4, p5, p7⟩ := hP
       show Good c (parseFinish s1 u)
       refine Good_of_SI (t := parseFinish s1 u) ?_ p7
       have hc0 : mcount (parseFinish s1 u) = 0 := by
@@ -387,7 +402,7 @@ theorem Good_parseVerdict {c : Cfg} {s1 : State} (hP : PPre c s1)
         simp only [mcount] at p4
         show List.countP Job.mc [] + List.countP Phase.mc (List.map _ s1.busy) = 0
         simp only [List.countP_nil]; omega
-      refine ⟨?_, b2, fun _ => hpo1, fun _ => p3, by omega, fun _ => hc0, ?_, ?_, b9, b10, ?_, ?_⟩
+      refine ⟨?_, b2, fun _ => hpo1, fun _ => p3, by omega, fun _ => hc0, ?_, ?_, b9, b10, ?_, ?_, ?_⟩
       · simp only [expect, hfut] at b1
         simpa [expect, future, parseFinish] using b1
       · intro j hj; cases hj
@@ -395,16 +410,12 @@ theorem Good_parseVerdict {c : Cfg} {s1 : State} (hP : PPre c s1)
         simp only [parseFinish, List.mem_map] at hph
         obtain ⟨x, hx, rfl⟩ := hph
         exact phaseOK_flag' (b8 x hx)
-      · apply ubOK_popOrphans (p := fun _ => true)
-        intro x hx
-        simp only [List.mem_append, List.mem_flatMap] at hx
-        rcases hx with ⟨j, hj, hx⟩ | hx
-        · exact ubOK_orphan (b7 j hj) x hx
-        · exact b11 x hx
+      · intro hd; exact absurd (show (parseFinish s1 u).pdone = true from rfl) (by rw [hd]; simp)
       · intro hh; rw [show (parseFinish s1 u).pphase = s1.pphase from rfl, p3] at hh; cases hh
+      · intro hd; exact absurd (show (parseFinish s1 u).pdone = true from rfl) (by rw [hd]; simp)
   | hdr b =>
-    obtain ⟨q1, q2⟩ := PPre_push hP hu
-    obtain ⟨r1, r2⟩ := PPre_match q1 q2
+    obtain ⟨q1, q2, q3⟩ := PPre_push hP hu
+    obtain ⟨r1, r2⟩ := PPre_match q1 q2 q3
     exact Good_of_SI r1 r2
 
 theorem Good_parseEnd {c : Cfg} {s s' : State} (h : SI c s) (hf : s.failed = false)
@@ -423,7 +434,7 @@ theorem Good_parseEnd {c : Cfg} {s s' : State} (h : SI c s) (hf : s.failed = fal
       | true => have := h.excl hp; rw [hk] at this; cases this
     have hS0 : SI c { s with pphase := none } := by
       obtain ⟨a1, a2, a3, a4, a5, a6, a7, a8, a9, a10, a11, a12, a13⟩ := h
-      refine ⟨a1, a2, ?_, fun _ => rfl, a5, ?_, a7, a8, a9, a10, a11, ?_⟩
+      refine ⟨a1, a2, ?_, fun _ => rfl, a5, ?_, a7, a8, a9, a10, a11, ?_, a13⟩
       · intro _; exact hpo
       · intro _; exact hm0
       · intro hh; cases hh
@@ -444,8 +455,9 @@ theorem Good_parseEnd {c : Cfg} {s s' : State} (h : SI c s) (hf : s.failed = fal
     rw [key] at hs
     generalize detach { s with pphase := none } k = s1 at hs hP hpo1
     split at hs
-    · simp only [Option.some.injEq] at hs; subst hs
-      exact Good_parseMore k hP hpo1
+    · next hmore =>
+      simp only [Option.some.injEq] at hs; subst hs
+      exact Good_parseMore k hP hpo1 (parseMoreP_le hmore)
     · simp only [Option.some.injEq] at hs; subst hs
       exact Good_parseVerdict hP hpo1
 
